@@ -54,6 +54,9 @@ class CFormatter(Formatter):
 
     @override(Formatter)
     def format_comment(self, content: str) -> str:
+        # A trailing backslash would splice the next generated line into this
+        # line comment.
+        content = content.rstrip("\\ \t")
         return f"// {content}"
 
     def format_sizeof(self, t: str) -> str:
